@@ -11,6 +11,7 @@ import XdslModel.ArgSpec
 import XdslModel.Constraint
 import XdslModel.Affine
 import XdslModel.OpDef
+import XdslModel.StructEq
 /-!
 Model registry for the driver: `MODEL <name>` selects a `(state, lineStep)` pair.
 A continuation-passing encoding is used because the state types differ.
@@ -34,6 +35,7 @@ def run? (name : String) : Option Runner :=
   | "constraint" => some fun k => k Constraint.lineStep []
   | "affine" => some fun k => k Affine.lineStep ()
   | "op_def" => some fun k => k OpDef.lineStep {}
+  | "struct_eq" => some fun k => k StructEq.lineStep ()
   | _ => none
 
 end Xdsl.Registry
